@@ -211,11 +211,15 @@ def safe (p : Prog) : Bool :=
 
 What a call may keep *inside the element* between calls.  Two kinds of storage:
 
-* **memo cells** — `cell c` holds `some (tag, value)`: a value together with the key it was computed
-  for (`self._surface` with `_actuators_for_cached_surface`; `_achromatic_screen` for the current
-  centre; an `InstanceData` under its (grid, wavelength) key; MFT matrices under their dtype).
-  `memoFill c e` stores `(current key of c, e)`; `memoRead r c fb` yields the stored value when the
-  stored tag equals the current key of `c` and the fallback `fb` (recomputation) otherwise.
+* **memo cells** — `cell c` holds a list of `(tag, value)` entries, newest first: values together
+  with the key they were computed for (`self._surface` with `_actuators_for_cached_surface`;
+  `_achromatic_screen` for the current centre; `InstanceData`s under their (grid, wavelength) keys in
+  `_instance_data_cache`; MFT matrices under their dtype).  A cell keeps at most `cap c` entries
+  (1 for a single cached value, `max_in_cache = 11` for the instance cache; which entry is evicted
+  when the cache is full is C05's subject, histories replayed against the code stay below the cap).
+  `memoFill c e` stores `(current key of c, e)` in front, replacing an entry with the same key;
+  `memoRead r c fb` yields the value stored under the current key of `c` (a *hit*, `cellHit`) and
+  the fallback `fb` (recomputation) when there is none (a *miss*).
 * **scratch buffers** — `scratch b` (the `internal_array` of an FFT object, the
   `intermediate_array` of an MFT): overwritten with input data on every call.
 
@@ -260,6 +264,19 @@ structure IProg where
   spec : Nat → IExpr
   body : List IInstr
   ret : IExpr
+  /-- number of entries cell `c` keeps -/
+  cap : Nat → Nat := fun _ => 1
+
+abbrev Entries := List (List Int × Int)
+
+/-- the value stored under `tag`, if any -/
+def lookup (tag : List Int) : Entries → Option Int
+  | [] => none
+  | (t, v) :: rest => if t = tag then some v else lookup tag rest
+
+/-- store `(tag, v)` in front, dropping an older entry with the same tag, keep at most `cap`. -/
+def insertEntry (cap : Nat) (tag : List Int) (v : Int) (l : Entries) : Entries :=
+  ((tag, v) :: l.filter (fun e => e.1 ≠ tag)).take cap
 
 /-- Interpretation of the opaque operations. -/
 structure ISem where
@@ -269,11 +286,11 @@ structure ISem where
 /-- The element between calls. -/
 structure EState where
   params : Nat → Int
-  cells : Nat → Option (List Int × Int)
+  cells : Nat → Entries
   scratch : Nat → Int
 
 def EState.fresh (params : Nat → Int) : EState :=
-  { params := params, cells := fun _ => none, scratch := fun _ => 0 }
+  { params := params, cells := fun _ => [], scratch := fun _ => 0 }
 
 def atomEnv (params : Nat → Int) (v : InVal) : Atom → Int
   | .param i => params i
@@ -289,27 +306,26 @@ def evalI (S : ISem) (ρ : Atom → Int) (fld : Int) (loc : Nat → Int) : IExpr
 
 /-- Running state of one call. -/
 structure IRun where
-  cells : Nat → Option (List Int × Int)
+  cells : Nat → Entries
   scratch : Nat → Int
   loc : Nat → Int
 
 def stepI (S : ISem) (p : IProg) (ρ : Atom → Int) (fld : Int) (c : IRun) : IInstr → IRun
   | .letE r e => { c with loc := upd c.loc r (evalI S ρ fld c.loc e) }
-  | .memoFill k e => { c with cells := upd c.cells k (some ((p.keyAtoms k).map ρ, evalI S ρ fld c.loc e)) }
+  | .memoFill k e =>
+    { c with cells := upd c.cells k (insertEntry (p.cap k) ((p.keyAtoms k).map ρ) (evalI S ρ fld c.loc e) (c.cells k)) }
   | .memoRead r k fb =>
-    match c.cells k with
-    | some (tag, val) =>
-      if tag = (p.keyAtoms k).map ρ then { c with loc := upd c.loc r val }
-      else { c with loc := upd c.loc r (evalI S ρ fld c.loc fb) }
+    match lookup ((p.keyAtoms k).map ρ) (c.cells k) with
+    | some val => { c with loc := upd c.loc r val }
     | none => { c with loc := upd c.loc r (evalI S ρ fld c.loc fb) }
   | .cellUpdate k e =>
     match c.cells k with
-    | some (tag, _) => { c with cells := upd c.cells k (some (tag, evalI S ρ fld c.loc e)) }
-    | none => c
+    | (tag, _) :: rest => { c with cells := upd c.cells k ((tag, evalI S ρ fld c.loc e) :: rest) }
+    | [] => c
   | .rawRead r k =>
     match c.cells k with
-    | some (_, val) => { c with loc := upd c.loc r val }
-    | none => { c with loc := upd c.loc r 0 }
+    | (_, val) :: _ => { c with loc := upd c.loc r val }
+    | [] => { c with loc := upd c.loc r 0 }
   | .scratchWrite b e => { c with scratch := upd c.scratch b (evalI S ρ fld c.loc e) }
   | .scratchRead r b => { c with loc := upd c.loc r (c.scratch b) }
 
@@ -321,6 +337,12 @@ def callI (S : ISem) (p : IProg) (E : EState) (v : InVal) : Int × EState :=
   let ρ := atomEnv E.params v
   let c := execI S p ρ v.field ⟨E.cells, E.scratch, fun _ => 0⟩ p.body
   (evalI S ρ v.field c.loc p.ret, { E with cells := c.cells, scratch := c.scratch })
+
+/-- **Hit or miss**: does cell `c` of the element in state `E` hold a value for the key of a call with
+input `v`?  (What the harness observes on the code as "nothing recomputed" / "`make_instance` ran",
+"`linear_combination` ran".) -/
+def cellHit (p : IProg) (E : EState) (v : InVal) (c : Nat) : Bool :=
+  (lookup ((p.keyAtoms c).map (atomEnv E.params v)) (E.cells c)).isSome
 
 /-- What can happen to an element between two observations. -/
 inductive Event where
